@@ -199,6 +199,16 @@ func rndHistQuery(rnd *rand.Rand) *histQuery {
 			// a hostname that is an address: what the engine learns about it must not stick to the next request
 			q.host = []string{"1.2.3.4", "10.1.1.1", "::1"}[rnd.Intn(3)]
 		}
+		switch rnd.Intn(12) {
+		case 0:
+			// the same name in capitals is another request (the caller is meant to normalise; the engine must not do it
+			// for one request and not for the next)
+			q.host = strings.ToUpper(q.host)
+		case 1:
+			// a name that shares all but the first letter with a name of the lists: it meets only some of the places
+			// under which a rule is filed
+			q.host = q.host[1:]
+		}
 	case 2:
 		q.kind = []string{"web", "net"}[rnd.Intn(2)]
 		q.url = []string{"http://", "https://"}[rnd.Intn(2)] + h + []string{"/", "/ads/banner.js", "/ads12/x.png", "/index.html", "/Ads/banner.js", "/ADS/BANNER.JS",
@@ -243,6 +253,16 @@ func sortedTexts(rs []*rules.NetworkRule) string {
 	return strings.Join(t, ",")
 }
 
+// sortedTextsWithList: each rule with the id of the list it came from
+func sortedTextsWithList(rs []*rules.NetworkRule) string {
+	var t []string
+	for _, r := range rs {
+		t = append(t, fmt.Sprintf("%s@%d", r.RuleText, r.GetFilterListID()))
+	}
+	sort.Strings(t)
+	return strings.Join(t, ",")
+}
+
 func hostTextsSorted(hs []*rules.HostRule) string {
 	var o []string
 	for _, r := range hs {
@@ -255,7 +275,7 @@ func hostTextsSorted(hs []*rules.HostRule) string {
 func digestResult(q *histQuery, r *histResult) string {
 	switch {
 	case r.dns != nil:
-		return fmt.Sprintf("dns{net:[%s] rule:%s v4:[%s] v6:[%s] matched:%v}", sortedTexts(r.dns.NetworkRules), ruleText(r.dns.NetworkRule),
+		return fmt.Sprintf("dns{net:[%s] rule:%s v4:[%s] v6:[%s] matched:%v}", sortedTextsWithList(r.dns.NetworkRules), ruleText(r.dns.NetworkRule),
 			hostTextsSorted(r.dns.HostRulesV4), hostTextsSorted(r.dns.HostRulesV6), r.ok)
 	case r.mr != nil:
 		return fmt.Sprintf("web{basic:%s doc:%s stealth:%s}", ruleText(r.mr.BasicRule), ruleText(r.mr.DocumentRule), ruleText(r.mr.StealthRule))
@@ -308,7 +328,7 @@ func (e *histEngines) run2(q *histQuery) (digest string, res *histResult, texts,
 			}
 		case "net":
 			rs := e.net.MatchAll(rules.NewRequest(q.url, q.src, q.typ))
-			digest = "net[" + sortedTexts(rs) + "]"
+			digest = "net[" + sortedTextsWithList(rs) + "]"
 			texts = textsOf(rs)
 			netTexts = textsOf(rs)
 		case "cos":
@@ -465,6 +485,9 @@ func cmdDriveHistory(args []string) error {
 		lines = append(lines, "*$domain=example.org,image", "*$domain=sub.example.org,image", "/q$domain=example.org|sub.example.org,image",
 			"*$domain=sub.example.org|example.org,image")
 		hr.Shuffle(len(lines), func(i, j int) { lines[i], lines[j] = lines[j], lines[i] })
+		// the same line in two lists (subscriptions overlap): each copy is a rule of its own list
+		dup := "||" + histHosts[hr.Intn(len(histHosts))] + "^"
+		lines = append(append([]string{dup}, lines...), lines[0], lines[1], dup)
 		// every 3rd history: the lists of the long-lived engines have a spell of failing retrievals (queries asked during
 		// the spell are not part of the history: an I/O error is the environment's doing); afterwards every answer has to
 		// be the fresh engine's again
@@ -472,12 +495,14 @@ func cmdDriveHistory(args []string) error {
 		if hnum%3 == 1 {
 			wrapHistList = func(l filterlist.RuleList) filterlist.RuleList { return &flakyList{RuleList: l, failing: failing} }
 		}
-		st, cleanup, err := makeHistStorage(hr, lines, m["dir"], false)
+		// (the fresh engines are built over exactly these lists - the same split, the same ids, the same backing: an
+		// answer names the list each rule came from)
+		seedFresh := hr.Int63()
+		st, cleanup, err := makeHistStorage(rand.New(rand.NewSource(seedFresh)), lines, m["dir"], false)
 		wrapHistList = nil
 		if err != nil {
 			return err
 		}
-		seedFresh := hr.Int63()
 		out.write(map[string]any{"ev": "reset", "q": "", "a": "", "rid": 0, "k": "", "h": hnum})
 		eng := newHistEngines(st)
 		var pool []*histQuery
@@ -502,6 +527,15 @@ func cmdDriveHistory(args []string) error {
 					break
 				}
 			}
+		}
+		if hnum%2 == 1 {
+			// every other history starts with names that share all but their first letter with the names of the lists:
+			// they match nothing, and meet only some of the places under which the rules are filed
+			var near []*histQuery
+			for _, h := range histHosts {
+				near = append(near, &histQuery{kind: "dnsmatch", host: h[1:]})
+			}
+			inOrder = append(near, inOrder...)
 		}
 		pool[0] = &histQuery{kind: "web", host: "tracker.test", url: "http://tracker.test/q/banner.png", src: "https://sub.example.org/", typ: rules.TypeImage}
 		pool[1] = &histQuery{kind: "net", host: "tracker.test", url: "http://tracker.test/q/banner.png", src: "https://sub.example.org/news/", typ: rules.TypeImage}
